@@ -78,6 +78,7 @@ func (c *Conn) CloseRead(ctx context.Context) context.Context {
 	go func() {
 		defer close(c.closeReadDone)
 		defer cancel()
+		defer simYield("closeread.closed", c)
 		defer c.close()
 		simYield("closeread.start", c)
 		_, _, err := c.Reader(ctx)
